@@ -287,5 +287,37 @@ Proof.
   unfold refresh_body. cbv zeta.
   set (l := m_las m). set (w0 := s_items (l_well l)). set (trw := s_transforms (l_well l)).
   fold k_strt k_stop k_step.
-Admitted.
+  destruct (fidx trw k_strt w0) as [nS|] eqn:ES.
+  2: { destruct need; cbn [bind].
+       - rewrite update_first_upd, ES. reflexivity.
+       - rewrite sect_find_nth, ES. reflexivity. }
+  destruct (fidx_match _ _ _ _ ES) as [itS [HnS HmS]].
+  destruct need; cbn [bind].
+  - rewrite update_first_upd, ES. cbn [bind].
+    rewrite update_first_upd, fidx_upd by (intro; reflexivity).
+    destruct (fidx trw k_stop w0) as [nP|] eqn:EP; [|reflexivity]. cbn [bind].
+    rewrite update_first_upd, !fidx_upd by (intro; reflexivity).
+    destruct (fidx trw k_step w0) as [nE|] eqn:EE; [|reflexivity]. cbn [bind].
+    rewrite sect_find_nth, !fidx_upd, ES by (intro; reflexivity).
+    match goal with |- bind (nth_error ?W nS) _ = _ =>
+      assert (Hu : option_map i_unit (nth_error W nS) = Some (i_unit itS))
+        by (rewrite !nth_error_upd_unit by (intro; reflexivity); rewrite HnS; reflexivity);
+      destruct (nth_error W nS) as [si|] eqn:Esi; [|discriminate] end.
+    simpl in Hu. injection Hu as Hu. cbn [bind]. rewrite Hu.
+    rewrite update_first_upd, !fidx_upd, ES by (intro; reflexivity). cbn [bind].
+    rewrite update_first_upd, !fidx_upd, EP by (intro; reflexivity). cbn [bind].
+    rewrite update_first_upd, !fidx_upd, EE by (intro; reflexivity). cbn [bind].
+    unfold refresh_result, unit_of, c0unit_of, align, set_vals, index_of, curves_aligned, sv, su,
+      strt_of, stop_of, step_of.
+    fold l. fold w0. rewrite HnS. reflexivity.
+  - rewrite sect_find_nth, ES, HnS. cbn [bind].
+    rewrite update_first_upd, ES. cbn [bind].
+    rewrite update_first_upd, !fidx_upd by (intro; reflexivity).
+    destruct (fidx trw k_stop w0) as [nP|] eqn:EP; [|reflexivity]. cbn [bind].
+    rewrite update_first_upd, !fidx_upd by (intro; reflexivity).
+    destruct (fidx trw k_step w0) as [nE|] eqn:EE; [|reflexivity]. cbn [bind].
+    unfold refresh_result, unit_of, c0unit_of, align, set_vals, index_of, curves_aligned, sv, su.
+    fold l. fold w0. rewrite HnS. reflexivity.
+Qed.
+
 End Refresh.
